@@ -25,8 +25,28 @@ var registry = map[string]*Property{}
 
 func register(p *Property) { registry[p.ID] = p }
 
-// Get returns the property definition.
-func Get(id string) *Property { return registry[id] }
+var extras = map[string][]func(c *kit.Ctx){}
+
+// registerExtra adds rules to a property defined in another file (rules that
+// were added after independently seeded changes showed a gap).
+func registerExtra(id string, fn func(c *kit.Ctx)) { extras[id] = append(extras[id], fn) }
+
+// Get returns the property definition (with its extra rules appended).
+func Get(id string) *Property {
+	p := registry[id]
+	if p == nil || len(extras[id]) == 0 {
+		return p
+	}
+	q := *p
+	base := p.Run
+	q.Run = func(c *kit.Ctx) {
+		base(c)
+		for _, f := range extras[id] {
+			f(c)
+		}
+	}
+	return &q
+}
 
 // IDs lists registered properties.
 func IDs() []string {
